@@ -1,0 +1,18 @@
+//go:build verif
+
+// Assumed contract of the raster.Rasterizer interface, used by /verif/govc when verifying the Renderer.
+// Comment-only file: with the build tag off it does not exist for the compiler.
+
+package raster
+
+//@ uses rast
+
+// Pen, Size and Bounds are observers: they change nothing.
+//@ iface Rasterizer.Pen
+//@   mode math
+//@   pure
+//@   ensures (and (= result.0 (rast.penX mon.rast)) (= result.1 (rast.penY mon.rast)))
+//@ iface Rasterizer.Size
+//@   pure
+//@ iface Rasterizer.Bounds
+//@   pure
